@@ -71,7 +71,7 @@ def run(ctx):
     seg_fns = [f for f in prog.fns.values() if f.family == 'seg' and not f.is_closure]
     ins = [f for f in seg_fns if f.trait_method() == 'insert_by_range']
     qry = [f for f in seg_fns if f.trait_method() == 'iter_by_range']
-    nxt = [f for f in seg_fns if f.trait_method() == 'next' and L.live_sites(prog, f)]
+    nxt = [f for f in seg_fns if f.trait_method() == 'next' and liveness_keeps(prog, f)]
     if not (ins and qry and nxt):
         ctx.anchor_missing(RULE, 'insert_by_range / iter_by_range / Iterator::next of the segment tree', PROPS, len(ins) + len(qry) + len(nxt), 3)
         return
@@ -403,6 +403,8 @@ def check_find_next(prog, fn):
                 continue
             t = b.mir['blocks'][sw[0]]['term']
             none_succ = [tb for tv, tb in t['targets'] if tv == 0]
+            if not none_succ and [tv for tv, _ in t['targets']] == [1]:
+                none_succ = [t['otherwise']]
             if not none_succ or not cfg.dominates(none_succ[0], blk):
                 problems.append('the out-of-range marker is returned although selected places remain')
             if v.args[0] is not None and v.args[0] < (1 << 16):
